@@ -4,6 +4,7 @@ import (
 	"bytes"
 	"context"
 	"encoding/hex"
+	"errors"
 	"fmt"
 	"testing"
 
@@ -43,7 +44,7 @@ var idPool = []string{"a", "b", "ab", "userA", "a/b", "x/y/z", "é", "日本", "
 func genC20(t *rapid.T) c20Prog {
 	p := c20Prog{Instances: rapid.IntRange(1, 3).Draw(t, "instances")}
 	n := rapid.IntRange(3, 30).Draw(t, "nops")
-	kinds := []string{"create", "create", "create", "get", "get", "has", "has", "has", "reopen", "burst", "identity"}
+	kinds := []string{"create", "create", "create", "get", "get", "has", "has", "has", "reopen", "burst", "identity", "createfail", "createfail"}
 	bursts := 0
 	for i := 0; i < n; i++ {
 		o := kop{Kind: rapid.SampledFrom(kinds).Draw(t, "kind"), Inst: rapid.IntRange(0, p.Instances-1).Draw(t, "inst"), ID: rapid.IntRange(0, len(idPool)-1).Draw(t, "id")}
@@ -63,7 +64,8 @@ func genC20(t *rapid.T) c20Prog {
 // C20 — key material and identities are stable and self-consistent.
 func runC20(tb ev.TB, p c20Prog) ev.Result {
 	ctx := context.Background()
-	store := dssync.MutexWrap(ds.NewMapDatastore())
+	flaky := &flakyDS{Datastore: dssync.MutexWrap(ds.NewMapDatastore())}
+	var store ds.Datastore = flaky
 	mk := func() *keystore.Keystore {
 		k, err := keystore.NewKeystore(store)
 		if err != nil {
@@ -115,6 +117,26 @@ func runC20(tb ev.TB, p c20Prog) ev.Result {
 		ks := inst[in]
 		id := idPool[o.ID%len(idPool)]
 		switch o.Kind {
+		case "createfail":
+			// the datastore write fails: CreateKey must fail and the id must stay absent everywhere
+			if _, exists := model[id]; exists {
+				continue
+			}
+			classes["create-with-failing-write"] = true
+			flaky.failPuts = 1
+			_, err := ks.CreateKey(ctx, id)
+			flaky.failPuts = 0
+			if err == nil {
+				tb.Fatalf("op #%d CreateKey(%q) returned no error although the datastore write failed", i, id)
+			}
+			for si, k2 := range append(append([]*keystore.Keystore{}, inst...), mk()) {
+				if ok, _ := k2.HasKey(ctx, id); ok {
+					tb.Fatalf("op #%d: after a failed CreateKey(%q) instance %d reports the key present", i, id, si)
+				}
+				if _, err := k2.GetKey(ctx, id); err == nil {
+					tb.Fatalf("op #%d: after a failed CreateKey(%q) instance %d returns a key", i, id, si)
+				}
+			}
 		case "create":
 			if _, exists := model[id]; exists {
 				// callers create a key only when it does not exist yet: query instead
@@ -302,9 +324,23 @@ func runC20(tb ev.TB, p c20Prog) ev.Result {
 	return ev.Result{NonTrivial: nt, Classes: cl}
 }
 
+// flakyDS makes the next failPuts Put calls fail.
+type flakyDS struct {
+	ds.Datastore
+	failPuts int
+}
+
+func (f *flakyDS) Put(ctx context.Context, k ds.Key, v []byte) error {
+	if f.failPuts > 0 {
+		f.failPuts--
+		return errors.New("injected datastore write failure")
+	}
+	return f.Datastore.Put(ctx, k, v)
+}
+
 func TestC20(t *testing.T) {
 	c := ev.Get("C20")
-	c.Rule = "stateful model-based generation: 3-30 operations on 1-3 keystore instances sharing one datastore: create(id) (only for ids absent from the model, as every caller does), get, has, reopen(instance), createBurst(130-300 fresh ids, beyond the 128-entry cache), createIdentity(id) on two instances; ids from a pool with slashes, unicode, spaces, long and hex-like names. Model = map id -> public key. has must be true exactly for created ids (false with an error counts as absent), get must return the created key or an error; identities created twice must be identical (incl. signatures), the id signature must verify under the published key over the id, the public-key signature under the key the id denotes over hex(publicKey || idSignature), and an entry signed with the identity must carry and verify under the published key; a final sweep queries every key on every instance and on a brand-new one. Non-trivial = a present id queried on another instance, after a reopen or after eviction (burst); distinct = distinct program."
+	c.Rule = "stateful model-based generation: 3-30 operations on 1-3 keystore instances sharing one datastore: create(id) (only for ids absent from the model, as every caller does), create with a failing datastore write (must fail and leave the id absent on every instance), get, has, reopen(instance), createBurst(130-300 fresh ids, beyond the 128-entry cache), createIdentity(id) on two instances; ids from a pool with slashes, unicode, spaces, long and hex-like names. Model = map id -> public key. has must be true exactly for created ids (false with an error counts as absent), get must return the created key or an error; identities created twice must be identical (incl. signatures), the id signature must verify under the published key over the id, the public-key signature under the key the id denotes over hex(publicKey || idSignature), and an entry signed with the identity must carry and verify under the published key; a final sweep queries every key on every instance and on a brand-new one. Non-trivial = a present id queried on another instance, after a reopen or after eviction (burst); distinct = distinct program."
 	c.Assumptions = []string{"ids are datastore-key-normal (no leading/trailing/double slashes or dot segments): the datastore cleans key paths, so such ids alias by construction", "create is only issued for ids that do not exist (CreateKey overwrites by design)"}
 	ev.Check(t, "C20", genC20, runC20)
 }
